@@ -880,7 +880,8 @@ impl crate::traits::SwiftMessageBody for MT103 {
         // Parse optional repeating Field13C
         parser = parser.with_duplicates(true);
         let mut field_13c = Vec::new();
-        while let Ok(field) = parser.parse_field::<Field13C>("13C") {
+        while parser.detect_field("13C") {
+            let field = parser.parse_field::<Field13C>("13C")?;
             field_13c.push(field);
         }
         parser = parser.with_duplicates(false);
@@ -891,7 +892,8 @@ impl crate::traits::SwiftMessageBody for MT103 {
         // Parse optional repeating Field23E
         parser = parser.with_duplicates(true);
         let mut field_23e = Vec::new();
-        while let Ok(field) = parser.parse_field::<Field23E>("23E") {
+        while parser.detect_field("23E") {
+            let field = parser.parse_field::<Field23E>("23E")?;
             field_23e.push(field);
         }
         parser = parser.with_duplicates(false);
@@ -932,7 +934,8 @@ impl crate::traits::SwiftMessageBody for MT103 {
         // Parse optional repeating Field71F
         parser = parser.with_duplicates(true);
         let mut field_71f = Vec::new();
-        while let Ok(field) = parser.parse_field::<Field71F>("71F") {
+        while parser.detect_field("71F") {
+            let field = parser.parse_field::<Field71F>("71F")?;
             field_71f.push(field);
         }
         parser = parser.with_duplicates(false);
